@@ -41,9 +41,12 @@ class SeismicZfpBackendArray(BackendArray):
         max_xl = self.sgz_reader.n_xlines if max_xl is None else max_xl
         max_z = self.sgz_reader.n_samples if max_z is None else max_z
 
-        return self.sgz_reader.read_subvolume(min_il=min_il, max_il=max_il,
-                                              min_xl=min_xl, max_xl=max_xl,
-                                              min_z=min_z,   max_z=max_z)
+        subvolume = self.sgz_reader.read_subvolume(min_il=min_il, max_il=max_il,
+                                                   min_xl=min_xl, max_xl=max_xl,
+                                                   min_z=min_z,   max_z=max_z)
+
+        # Apply slice steps, and drop the axes which were indexed with an integer
+        return subvolume[tuple(slice(None, None, k.step) if isinstance(k, slice) else 0 for k in key)]
 
 
 class SeismicZfpBackendEntrypoint(BackendEntrypoint):
